@@ -63,6 +63,11 @@ var histSeeds = map[string]func(w *world) *world{
 		return okw(w, w.do(mkCreate("t1", worldSchemas["t1"])) && w.do(mkCreate("t2", worldSchemas["t2"])) &&
 			w.do(mkInsert(w.model, "t1", 12, false)) && w.do(mkInsert(w.model, "t2", 1, false)))
 	},
+	// rows with NULLs and a row near the size limit next to ordinary ones, partly updated
+	"t1-nulls-big": func(w *world) *world {
+		return okw(w, w.do(mkCreate("t1", worldSchemas["t1"])) && w.do(mkInsert(w.model, "t1", 3, false)) && w.do(mkInsertNull(w.model, "t1")) &&
+			w.do(mkInsert(w.model, "t1", 1, true)) && w.do(mkInsert(w.model, "t1", 2, false)) && w.do(mkUpdate(w.model, "t1", seqPred{"<=", 4})))
+	},
 	// a database that already went through one crash/recover cycle with the log only
 	"t1x8-crashed": func(w *world) *world {
 		if !(w.do(mkCreate("t1", worldSchemas["t1"])) && w.do(mkInsert(w.model, "t1", 8, false))) {
